@@ -105,6 +105,18 @@ def make_class(cid, ctor, uris):
     return C
 
 
+def make_hook(sess, kind):
+    """the application's onUserError override: records the call, then returns or raises (a logging / metrics hook
+    that fails).  kind: None|"returns"|"raises"|"raises_base" """
+    def hook(fail, msg):
+        sess.log.append(["usererror", None, msg[:60]])
+        if kind == "raises":
+            raise RuntimeError("onUserError override failed")
+        if kind == "raises_key":
+            raise KeyError("metrics")
+    return hook
+
+
 def make_serializer(name):
     if name == "json":
         return wser.JsonSerializer()
@@ -182,7 +194,7 @@ def run_trial(spec):
     # ---- callee
     cw = Wire()
     callee = env.session(transport_mode=cw)
-    callee.s.onUserError = lambda fail, msg: callee.log.append(["usererror", None, msg[:60]])   # never str() the exception here
+    callee.s.onUserError = make_hook(callee, spec.get("callee_hook"))
     callee.join(session_id=1001)
     callee.s.traceback_app = bool(spec["tb"])
     obs["callee_define"] = apply_ops(callee, classes, spec["callee_ops"])
@@ -198,7 +210,7 @@ def run_trial(spec):
     # ---- caller
     rw = Wire()
     caller = env.session(transport_mode=rw)
-    caller.s.onUserError = lambda fail, msg: caller.log.append(["usererror", None, msg[:60]])
+    caller.s.onUserError = make_hook(caller, spec.get("caller_hook"))
     caller.join(session_id=1002)
     obs["caller_define"] = apply_ops(caller, classes, spec["caller_ops"])
     outcome = {}
